@@ -117,7 +117,7 @@ def _reducer_runs(chk, tier, select, faults):
         grid = [(1, 2, 1), (2, 2, 1), (3, 1, 1)]
     for mode in ("solve", "minimize", "maximize"):
         for workers, K, sp in grid:
-            r = chk.explore("reducer", dict(mode=mode, workers=workers, K=K, faults=faults, spurious=sp, select=list(select), known=known), f"{mode}/workers={workers}/K={K}/faults={faults}/spurious={sp}", time_limit=1500 if tier == "quick" else 7200)
+            r = chk.explore("reducer", dict(mode=mode, workers=workers, K=K, faults=faults, spurious=sp, select=list(select), known=known), f"{mode}/workers={workers}/K={K}/faults={faults}/spurious={sp}", time_limit=1500 if tier == "quick" else 7200, flags=dict(loop_budget=60))
             if not faults:
                 chk.require(f"{mode}/{workers}", r.acc.counts.get("returned", 0) > 0, "no healthy run returned")
     chk.functions.update(["nucs.solvers.multiprocessing_solver.MultiprocessingSolver.solve", "MultiprocessingSolver.optimize", "MultiprocessingSolver.minimize", "MultiprocessingSolver.maximize", "MultiprocessingSolver.get_statistics", "sum_stats", "max_stats"])
@@ -193,7 +193,7 @@ def c19(tier, seed, only):
 
 from . import solvefam  # noqa: E402
 
-OPT_MODELS = ["lt", "sum_eq", "alldiff3", "max_eq", "obj_under_leq", "obj_shared_offset", "free2", "shared_twice", "geq_leq", "count", "relation", "element_iv", "noncoprime_eq"]
+OPT_MODELS = ["lt", "sum_eq", "alldiff3", "max_eq", "obj_under_leq", "obj_shared_offset", "free2", "shared_twice", "dummy_only", "geq_leq", "count", "relation", "element_iv", "noncoprime_eq"]
 
 
 def _objectives(name):
@@ -275,11 +275,13 @@ def c04(tier, seed, only):
     # (i)(iii)(iv) whole runs: pops per pass <= 4(P+1)(S+2), optimize rounds <= width+3, while-iterations <= 6000
     runs = solvefam.plan(tier, seed, models=only)
     batch2 = solvefam.run_plan(chk, ["C04"], runs)
-    for name in OPT_MODELS[:8] if tier == "quick" else OPT_MODELS:
+    for name in OPT_MODELS[:9] if tier == "quick" else OPT_MODELS:
         if only and name not in only:
             continue
-        for mode in ("minimize", "maximize"):
-            batch2 += solvefam.run_plan(chk, ["C04"], [(name, {})], mode=mode, objective=len(list(_objectives(name))) - 1)
+        objs = list(_objectives(name)) if name in ("obj_shared_offset", "shared_twice", "free2", "dummy_only") else [len(list(_objectives(name))) - 1]
+        for obj in objs:
+            for mode in ("minimize", "maximize"):
+                batch2 += solvefam.run_plan(chk, ["C04"], [(name, {})], mode=mode, objective=obj)
     # the variable heuristics never answer "none" (-1) while a decision variable is free
     for vname in h_heur.VARH_NAMES:
         if only and vname not in only:
@@ -398,6 +400,9 @@ def _install_twin_models():
     M.setdefault("max_eq_dummy", dict(doms=3, vars=[(0, 0), (1, 0), (2, 0)], props=[([0, 1, 2], "max_eq", []), ([0, 1, 2], "dummy", [])]))
     M.setdefault("lt_true", dict(doms=2, vars=[(0, 0), (1, 0)], props=[([0, 1], "affine_leq", [1, -1, -1]), ([0, 1], "affine_leq", [0, 0, 0])]))
     M.setdefault("lt_swapped", dict(doms=2, vars=[(1, 0), (0, 0)], props=[([1, 0], "affine_leq", [1, -1, -1])]))
+    # two constraints of the same type and arity whose complexities differ (relation: 3 x number of parameters), around a third one
+    M.setdefault("two_relations", dict(doms=2, vars=[(0, 0), (1, 0)], props=[([0, 1], "relation", [0, 1, 1, 0, 1, 2, 2, 1, 0, 2]), ([0, 1], "alldifferent", []), ([1, 0], "relation", [S] * 2)], base=0))
+    M.setdefault("relation_alldiff", dict(doms=2, vars=[(0, 0), (1, 0)], props=[([0, 1], "relation", [0, 1, 1, 0, 1, 2, 2, 1]), ([0, 1], "alldifferent", [])], base=0))
 
 
 _install_twin_models()
@@ -435,7 +440,10 @@ def c13(tier, seed, only):
         if only and name not in only:
             continue
         batch += solvefam.run_plan(chk, ["C01", "C02"], [(name, {}), (name, dict(cons="shaving", domh="mid"))])
-        batch += solvefam.run_plan(chk, ["C03", "C01"], [(name, {})], mode="minimize", objective=0)
+        objs = list(_objectives(name)) if name in ("twin_shared", "twin_linked", "lt_swapped") else [0]
+        for obj in objs:
+            for mode in ("minimize", "maximize"):
+                batch += solvefam.run_plan(chk, ["C03", "C01"], [(name, {})], mode=mode, objective=obj)
     # permuting constraints
     for name, md in h_solve.MODELS.items():
         if only and name not in only:
@@ -520,10 +528,10 @@ def c15(tier, seed, only):
             continue
         chk.explore("prop_ties", dict(cfg=cfg), f"ties/{cfg['alg']}/n={cfg['n']}/{cfg['params']}", flags=dict(loop_budget=4000))
     # (b) no dependence on uninitialised memory, (c) history independence
-    hist = [["other_solver_abandoned"], ["other_solver_exhausted"], ["minimize_first"], ["register_extras"], ["split"], ["init_twice"], ["other_solver_abandoned", "register_extras"], ["minimize_first", "other_solver_exhausted"]]
-    models = ["lt", "alldiff3", "queens_like", "shared_twice", "count", "circuit3", "max_eq", "magic_like"]
+    hist = [["other_solver_abandoned"], ["other_solver_exhausted"], ["minimize_first"], ["register_extras"], ["split"], ["init_twice"], ["other_solver_abandoned", "register_extras"], ["minimize_first", "other_solver_exhausted"], ["sibling_problem"], ["sibling_problem", "other_solver_abandoned"]]
+    models = ["lt", "alldiff3", "queens_like", "shared_twice", "count", "circuit3", "max_eq", "magic_like", "relation_alldiff", "element_iv", "gcc"]
     if tier == "quick":
-        models = ["lt", "alldiff3", "shared_twice", "circuit3", "magic_like"]
+        models = ["lt", "alldiff3", "shared_twice", "circuit3", "magic_like", "relation_alldiff"]
     batch = []
     cfgs = [{}, dict(cons="shaving", domh="mid"), dict(varh="smallest", domh="max")]
     k = seed
@@ -560,6 +568,9 @@ def c20(tier, seed, only):
     chk.res.stats["prop_queries"] = rep.queries
     chk.res.stats["checks"] = rep.queries
     chk.res.stats["solver_s"] = rep.solver_s
+    for v in rep.violations:
+        # replay = the real solver on the instances of that model (counts / optima derived from the definition)
+        v["instances"] = [i for i in rep.instances if i["model"] == v["model"] or i["model"].startswith(v["model"])]
     chk.violations.extend(rep.violations)
     chk.inconclusive.extend(rep.inconclusive)
     chk.require("C20", len(rep.items) > 20, "too few model queries")
